@@ -124,24 +124,37 @@ def getitem(prog: Program, rep: Report, MW: ClassInfo):
                 if val is None:
                     problems.append(f"context defined by an unrecognised statement at line {fa.line(d)}")
                     continue
-                arms = [val.body, val.orelse] if isinstance(val, ast.IfExp) else [val]
-                for a in arms:
+                # (arm, polarity of self.propagate_ctx under which it is taken: True / False / None = unconditional or unknown)
+                PC = ("self", "propagate_ctx")
+                here = fa.conds_at(d, asserts=False)
+                pol_d = True if PC in here else (False if ("not", PC) in here else None)
+                if isinstance(val, ast.IfExp):
+                    t = fa.sym.term(val.test, d)
+                    if t == PC:
+                        arms = [(val.body, True), (val.orelse, False)]
+                    elif negate(t) == PC:
+                        arms = [(val.body, False), (val.orelse, True)]
+                    else:
+                        arms = [(val.body, None), (val.orelse, None)]
+                        problems.append("whether a context is created does not depend on self.propagate_ctx")
+                else:
+                    arms = [(val, pol_d)]
+                    if len(reach) > 1 and pol_d is None:
+                        problems.append("whether a context is created does not depend on self.propagate_ctx")
+                for a, pol in arms:
                     fresh = (isinstance(a, ast.Dict) and not a.keys) or (
                         isinstance(a, ast.Call) and _n(a.func) == "dict" and not a.args and not a.keywords)
                     none = isinstance(a, ast.Constant) and a.value is None
                     if not (fresh or none):
                         problems.append(f"the context is {ast.unparse(a)} (line {fa.line(d)}), not a dict created in this call")
-                if isinstance(val, ast.IfExp):
-                    t = fa.sym.term(val.test, d)
-                    if t != ("self", "propagate_ctx") and negate(t) != ("self", "propagate_ctx"):
-                        problems.append("whether a context is created does not depend on self.propagate_ctx")
-                    elif isinstance(val.body, ast.Constant) and t == ("self", "propagate_ctx"):
+                    elif (none and pol is True) or (fresh and pol is False):
                         problems.append("a context is created exactly when none is to be propagated")
                 if d in cfg.nodes_inside(cfg.nodes[LN].owner.body):
                     problems.append("the context is re-created inside the loader loop: later items do not see what earlier items "
                                     "recorded")
-                if not cfg.dominates(d, LN):
-                    problems.append("the context definition does not dominate the loader loop")
+            if reach and not cfg.must_pass(set(reach), src=cfg.entry, dst=LN):
+                problems.append("the context definition does not dominate the loader loop")
+            problems = sorted(set(problems), key=problems.index)
             stored = [v for k, v, val in fa.stores(f"{fa.self_name}.") if val is not None and _n(val) == cv]
             if stored:
                 problems.append(f"the context is stored into {stored[0]}: the next sample sees this sample's entries")
@@ -281,10 +294,10 @@ def constructor(prog: Program, rep: Report, MW: ClassInfo):
     # paired appends
     apps = {"fused_to_idxs": [], "fused_items": []}
     for n, c in fa.calls_named("append"):
-        t = fa.sym.term(c.func.value, n)
-        a = t[1] if t[0] == "self" else (t[1][5:] if t[0] == "var" and t[1].startswith("self.") else None)
-        if isinstance(c.func.value, ast.Attribute) and c.func.value.attr in apps:
-            apps[c.func.value.attr].append((n, c))
+        r = fa.referent(c.func.value, n)
+        a = r.attr if isinstance(r, ast.Attribute) and _n(r.value) == fa.self_name else None
+        if a in apps:
+            apps[a].append((n, c))
     ok = bool(apps["fused_to_idxs"]) and len(apps["fused_to_idxs"]) == len(apps["fused_items"])
     if ok:
         for (n1, c1) in apps["fused_to_idxs"]:
@@ -460,6 +473,8 @@ def helpers(prog: Program, rep: Report, MW: ClassInfo):
         fa = fa_of(prog, si)
         rets = [t for n, t in fa.returns() if t is not None]
         ok = len(rets) == 1 and rets[0][0] == "call" and rets[0][1] == ("global", "tuple") and rets[0][2] and rets[0][2][0][0] == "comp"
+        if not ok:
+            ok = None  # written some other way (explicit loop, list surgery): not decided here
         if ok:
             comp = rets[0][2][0]
             elt = comp[2]
